@@ -4,7 +4,7 @@
 //! depend on it: the files are included BY PATH (`#[path]`, zero text transformation -- the compiled text is
 //! the working tree's text) under the module paths they refer to (`crate::primitives`, `crate::db::AccountStatus`,
 //! `super::..`).  The re-exports mirror crates/revm/src/db/states.rs for the included files only.
-//! NOT included: state.rs, bundle_state.rs, cache.rs, state_builder.rs, transition_state.rs.
+//! Also included (for C18): bundle_state.rs, transition_state.rs.  NOT included: state.rs, cache.rs, state_builder.rs.
 //!
 //! All harnesses are BOUNDED stand-ins and run on EMPTY storage maps with concrete existence patterns: a std HashMap
 //! holding a key with a symbolic value is not affordable in CBMC (measurements and causes: mutations/C16/README.md,
@@ -21,6 +21,8 @@ pub mod db {
         pub mod account_status;
         #[path = "@REPO@/crates/revm/src/db/states/bundle_account.rs"]
         pub mod bundle_account;
+        #[path = "@REPO@/crates/revm/src/db/states/bundle_state.rs"]
+        pub mod bundle_state;
         #[path = "@REPO@/crates/revm/src/db/states/cache_account.rs"]
         pub mod cache_account;
         #[path = "@REPO@/crates/revm/src/db/states/changes.rs"]
@@ -31,14 +33,18 @@ pub mod db {
         pub mod reverts;
         #[path = "@REPO@/crates/revm/src/db/states/transition_account.rs"]
         pub mod transition_account;
+        #[path = "@REPO@/crates/revm/src/db/states/transition_state.rs"]
+        pub mod transition_state;
 
         pub use account_status::AccountStatus;
         pub use bundle_account::BundleAccount;
+        pub use bundle_state::{BundleBuilder, BundleState, OriginalValuesKnown};
         pub use cache_account::CacheAccount;
         pub use changes::{PlainStateReverts, PlainStorageChangeset, PlainStorageRevert, StateChangeset};
         pub use plain_account::{PlainAccount, StorageSlot, StorageWithOriginalValues};
         pub use reverts::{AccountRevert, RevertToSlot};
         pub use transition_account::TransitionAccount;
+        pub use transition_state::TransitionState;
     }
 }
 
@@ -50,5 +56,7 @@ mod c15;
 mod c16;
 #[cfg(kani)]
 mod c17;
+#[cfg(kani)]
+mod c18;
 #[cfg(kani)]
 mod c19;
